@@ -33,7 +33,7 @@ Print Assumptions C02_field.
 
 (* non-vacuity: the polynomial of the suite's first phrase validates *)
 Example C02_witness :
-  let c := [1477; 1770; 1756; 922; 820; 110; 1446; 998; 542; 1926; 1656; 1044; 842; 1392; 44; 999] in
+  let c := [1427; 1770; 1756; 922; 820; 110; 1446; 998; 542; 1926; 1656; 1044; 842; 1392; 44; 999] in
   wf c /\ poly_eval c = 0.
 Proof.
   split; [|vm_compute; reflexivity].
